@@ -143,6 +143,11 @@ type MTxn struct {
 	applied map[uint32]bool     // blocks already applied to the model
 	changes map[uint32][]Change // committed changes per block (trigger and stream oracles)
 	ghost   bool                // holds a store into the unmodelled column "ghost"
+	// blocks in which the transaction stored into the unmodelled column (possibly nothing else),
+	// and whether that column existed when the commit of the block was released from MidCommit1
+	// (it looks the column up right after)
+	ghostOnly    map[uint32]bool
+	ghostAtApply map[uint32]bool
 }
 
 func (t *MTxn) add(op MOp) { t.Ops = append(t.Ops, op) }
